@@ -5,12 +5,15 @@
   assertion in client code breaks the build of `Nexus.Props.C17` until it is modelled.
 
   `how`:
-    * `panic`  — the model function `fn'` returns `Outcome.panic (siteText fn kind expr)` there
-                 (`modelSites` lists them; `Nexus.C17.model_sites_reachable` exhibits an input each);
-    * `ranged` — unreachable: the index variable is the key of the enclosing `for i := range`
-                 over the indexed slice (or over a slice of the same length);
-    * `user`   — the value comes from the application (options passed to Publish/Call, the map a
-                 SendProgressiveData callback returns), never from the router: outside C17.
+    * `guarded` — unreachable: `args[0]` after the function's leading `if len(args) == 0 { return … }`
+                  (the extractor verifies the guard and that `args` is never reassigned);
+    * `ranged`  — unreachable: the index variable is the key of the enclosing `for i := range`
+                  over the indexed slice (or over a slice of the same length);
+    * `user`    — the value comes from the application (options passed to Publish/Call, the map a
+                  SendProgressiveData callback returns), never from the router: outside C17.
+
+  Since fix 652e15e no bare site on router-supplied data is left; `modelSites` lists the places
+  where the PPT model would panic if the table listed them as bare again.
 -/
 import Nexus.Client.Ppt
 
@@ -18,7 +21,7 @@ namespace Nexus.Client
 open Nexus.Gen
 
 inductive How where
-  | panic (modelFn : String)
+  | guarded
   | ranged
   | user (why : String)
   deriving Repr, DecidableEq
@@ -31,13 +34,8 @@ structure Accounted where
   deriving Repr
 
 def accounted : List Accounted := [
-  { fn := "unpackPPTPayload", kind := "assert", expr := "pptSerializerStr.(string)", how := .panic "unpackPPTPayload" },
-  { fn := "unpackPPTPayload", kind := "index", expr := "args[0]", how := .panic "unpackPPTPayload" },
-  { fn := "unpackPPTPayload", kind := "assert", expr := "args[0].([]byte)", how := .panic "unpackPPTPayload" },
-  { fn := "unpackPPTPayload", kind := "assert", expr := "args[0].(*wamp.PassthruPayload)", how := .panic "unpackPPTPayload" },
-  { fn := "unpackE2EEPayload", kind := "assert", expr := "details[wamp.OptPPTSerializer].(string)", how := .panic "unpackE2EEPayload" },
-  { fn := "unpackE2EEPayload", kind := "index", expr := "args[0]", how := .panic "unpackE2EEPayload" },
-  { fn := "unpackE2EEPayload", kind := "assert", expr := "args[0].([]byte)", how := .panic "unpackE2EEPayload" },
+  { fn := "unpackPPTPayload", kind := "index-guarded", expr := "args[0]", how := .guarded },
+  { fn := "unpackE2EEPayload", kind := "index-guarded", expr := "args[0]", how := .guarded },
   { fn := "wampErrorString", kind := "index-ranged", expr := "werr.Arguments[i]", how := .ranged },
   { fn := "wampErrorString", kind := "index-ranged", expr := "args[i]", how := .ranged },
   { fn := "packE2EEPayload", kind := "assert", expr := "options[wamp.OptPPTSerializer].(string)",
@@ -48,20 +46,18 @@ def accounted : List Accounted := [
 def siteAccounted (s : Client.Site) : Bool :=
   accounted.any fun a => a.fn == s.fn && a.kind == s.kind && a.expr == s.expr
 
-/-- Every panic text the PPT model can produce, as (fn, kind, expr). -/
+/-- Every place where the PPT model consults the table, as (fn, kind, expr). -/
 def modelSites : List (String × String × String) := [
   ("unpackPPTPayload", "assert", "pptSerializerStr.(string)"),
   ("unpackPPTPayload", "index", "args[0]"),
   ("unpackPPTPayload", "assert", "args[0].([]byte)"),
   ("unpackPPTPayload", "assert", "args[0].(*wamp.PassthruPayload)"),
-  ("unpackPPTPayload", "deref", nilDeref),
   ("unpackE2EEPayload", "assert", "details[wamp.OptPPTSerializer].(string)"),
   ("unpackE2EEPayload", "index", "args[0]"),
   ("unpackE2EEPayload", "assert", "args[0].([]byte)")]
 
-/-- A model site is backed by a row of the regenerated table (the nil dereference is neither an
-    assertion nor an index, so the extractor does not list it). -/
-def modelSiteInTable (p : String × String × String) : Bool :=
-  p.2.1 == "deref" || Client.sites.any fun s => s.fn == p.1 && s.kind == p.2.1 && s.expr == p.2.2
+/-- No model site is bare, and the payload pointer is nil-checked. -/
+def PptFacts.clean (F : PptFacts) : Prop :=
+  (∀ p ∈ modelSites, F.bare p.1 p.2.1 p.2.2 = false) ∧ F.nilChecked = true
 
 end Nexus.Client
